@@ -30,6 +30,7 @@ import (
 	"github.com/scionproto/scion/pkg/segment/iface"
 	"github.com/scionproto/scion/private/revcache"
 	"github.com/scionproto/scion/private/revcache/memrevcache"
+	"verifharness/internal/glit"
 	"verifharness/internal/vgen"
 )
 
@@ -372,7 +373,7 @@ func emit(run *vgen.Run, h *hist) {
 	if h.sleeping {
 		kind = "sleeping"
 	}
-	id := run.Add(kind, vgen.App("CHist", vgen.List(evs), vgen.List(res)),
+	id := run.Add(kind, glit.Rewrite(vgen.App("CHist", vgen.List(evs), vgen.List(res))),
 		strings.Join(key, " "), nontriv, map[string]any{"base": h.base, "ops": desc})
 	if anyErr {
 		run.Violate(id, "memrevcache returned an error", desc)
@@ -383,14 +384,14 @@ func main() {
 	run := vgen.Flags("C31")
 	run.Imports = []string{"Model.RevCache"}
 	b0 = time.Now().Unix()
-	run.Prelude = fmt.Sprintf("Import RevCache.\nDefinition B0 : N := %d.\nDefinition U32 : N := 4294967295.\n"+
+	run.Prelude = glit.Rewrite(fmt.Sprintf("Import RevCache.\nDefinition B0 : N := %d.\nDefinition U32 : N := 4294967295.\n"+
 		"Definition IA0 : N := %d.\nDefinition IA1 : N := %d.\nDefinition IA2 : N := %d.\n"+
 		"Definition T (d : N) : N := B0 + d.\nDefinition M (d : N) : N := B0 - d.\n"+
 		"Definition I (t a i ts ttl id : N) : event := (t, Insert (Build_revoc a i ts ttl id)).\n"+
 		"Definition G (t a i : N) : event := (t, Get (a, i)).\n"+
 		"Definition D (t : N) : event := (t, DeleteExpired).\nDefinition A (t : N) : event := (t, GetAll).\n"+
 		"Definition RG (a i ts ttl id : N) : res := RGet (Some (Build_revoc a i ts ttl id)).",
-		b0, uint64(pool[0].IA), uint64(pool[1].IA), uint64(pool[2].IA))
+		b0, uint64(pool[0].IA), uint64(pool[1].IA), uint64(pool[2].IA)))
 	run.CheckFn = "RevCache.check"
 	run.DiagFn = "RevCache.diag"
 	run.CaseType = "RevCache.case"
